@@ -48,6 +48,11 @@ def run_property(prop, tier, repo_root, seed, open_findings):
         if c.options.get('axiom'):
             functions.append({'name': key, 'tier': 'assumed (abstraction boundary)', 'obligations': 0})
             continue
+        if c.options.get('bounded'):
+            functions.append({'name': key, 'tier': 'B (contract stated on the real function and executed by the '
+                                                   'native sweep; not proved)', 'obligations': 0,
+                              'reason': c.options.get('why', '')})
+            continue
         tf = time.time()
         r = calls.verify_function(eng, key, c)
         functions.append({'name': key, 'sha256': r.source_hash, 'tier': 'P' if r.status == 'ok' else 'undecided',
@@ -61,7 +66,15 @@ def run_property(prop, tier, repo_root, seed, open_findings):
             undecided.append({'name': key, 'reason': 'vacuous: no reachable return or no obligation'})
         obligations.extend((key, ob) for ob in r.obligations)
     # lemmas given as facts to obligations above (use(...)) are proved in the same run
-    for name in list(u.get('lemmas', [])) + sorted(n for n in eng.lemmas_used if n not in u.get('lemmas', [])):
+    todo = list(u.get('lemmas', []))
+    done_lemmas = set()
+    while True:
+        todo.extend(sorted(n for n in eng.lemmas_used if n not in todo))
+        pending = [n for n in todo if n not in done_lemmas]
+        if not pending:
+            break
+        name = pending[0]
+        done_lemmas.add(name)
         c = eng.sidecar.lemmas.get(name)
         if c is None:
             undecided.append({'name': 'lemma.' + name, 'reason': 'no such lemma'})
@@ -227,7 +240,8 @@ def run_property(prop, tier, repo_root, seed, open_findings):
         'undecided': undecided, 'functions': functions, 'solver_seconds': round(solver_seconds, 2),
         'by_backend': by_backend, 'samples': samples,
         'checker_cmd': 'python3-vt -m vlib.cli %s --tier %s (vlib/pyvc: VCs from %s/penman, raced on z3-new / cvc5 / /usr/bin/z3, %ds per query)' % (prop, tier, repo_root, timeout),
-        'trusted_base': TRUSTED_BASE + ['sidecar markers: ' + m for m in eng.sidecar.trusted_markers],
+        'trusted_base': TRUSTED_BASE + ['sidecar markers: ' + m for m in eng.sidecar.trusted_markers]
+        + ['assumed contract of a callee (not proved here): ' + k for k in sorted(eng.assumed_contracts)],
         'assumptions': ['definitional clauses (label=define) name the result of a deterministic function by an uninterpreted function of its arguments'],
         'vacuity': {'functions_with_reachable_return': sum(1 for f in functions if f.get('tier') == 'P')},
         'wall_s': round(time.time() - t0, 2),
